@@ -533,6 +533,15 @@ def boundary_cases():
     clash[1]["data"][0][0] = 0
     clash[1]["net"]["tensors"][0][4] = 0
     yield {"op": "net.history", "nets": clash, "ops": [["merge", 0, 1, [[0, 0]]], ["transpose", 0, None]]}
+    # clashing data under one reference that differ only slightly (relative 3e-6 / one unit in large entries): still a clash - the
+    # union of the data dictionaries is defined by EQUALITY of the arrays, not by closeness
+    va = {"tensors": [[0, 0, [2], [0], 4], [-1, -1, [2], [0], None]], "bonds": [[0, 0, [-1, 0]]]}
+    vb = {"tensors": [[1, 1, [2], [0], 4], [-1, -1, [2], [0], None]], "bonds": [[0, 0, [-1, 1]]]}
+    for xa, xb in (([300000, 5], [300001, 5]), ([1000000, -2000000], [1000000, -2000003]), ([7, 100000], [7, 100001])):
+        yield {"op": "net.history", "nets": [{"net": copy.deepcopy(va), "data": [[4, xa, [2]]]}, {"net": copy.deepcopy(vb), "data": [[4, xb, [2]]]}],
+               "ops": [["merge", 0, 1, []]]}
+        yield {"op": "net.history", "nets": [{"net": copy.deepcopy(va), "data": [[4, xa, [2]]]}, {"net": copy.deepcopy(vb), "data": [[4, xb, [2]]]}],
+               "ops": [["merge", 0, 1, [[0, 0]]]]}
 
 
 def gen_cases(tier, rng):
